@@ -78,17 +78,24 @@ CliV ==
 \*    (bad, contexts: per offending context the acceptable metadata values "(s r t) message"),
 \*    tool: exit, outs: per input per graph the error-N metadata values found in the tool's output
 AnyBad == \E f \in DOMAIN T.inputs : \E g \in DOMAIN T.inputs[f] : T.inputs[f][g].bad
-ChkV == FirstFail(<<
+ChkShape == Len(T.outs) = Len(T.inputs) /\ \A f \in DOMAIN T.inputs : Len(T.outs[f]) = Len(T.inputs[f])
+\* with --quiet the exit status is the only report: it must be the same, and nothing is written
+QuietV == FirstFail(<<
             <<"no-exception", T.tool.exc = "">>,
             <<"exit-nonzero-iff-some-graph-has-an-error", (T.tool.exit # 0) <=> AnyBad>>,
             <<"exit-status-is-1", AnyBad => T.tool.exit = 1>>,
-            <<"one-output-per-graph", Len(T.outs) = Len(T.inputs) /\ \A f \in DOMAIN T.inputs : Len(T.outs[f]) = Len(T.inputs[f])>>,
-            <<"every-offending-triple-recorded",
+            <<"quiet-writes-nothing", T.tool.out = "">> >>, 1)
+ChkV == IF T.quiet THEN QuietV ELSE FirstFail(<<
+            <<"no-exception", T.tool.exc = "">>,
+            <<"exit-nonzero-iff-some-graph-has-an-error", (T.tool.exit # 0) <=> AnyBad>>,
+            <<"exit-status-is-1", AnyBad => T.tool.exit = 1>>,
+            <<"one-output-per-graph", ChkShape>>,
+            <<"every-offending-triple-recorded", ChkShape =>
                 \A f \in DOMAIN T.inputs : \A g \in DOMAIN T.inputs[f] :
                     LET want == T.inputs[f][g].contexts  got == T.outs[f][g] IN
                     /\ Len(got) = Len(want)
                     /\ \A k \in DOMAIN want : \E j \in DOMAIN got : \E q \in DOMAIN want[k] : got[j] = want[k][q]>>,
-            <<"compliant-graphs-get-no-error-metadata",
+            <<"compliant-graphs-get-no-error-metadata", ChkShape =>
                 \A f \in DOMAIN T.inputs : \A g \in DOMAIN T.inputs[f] : ~T.inputs[f][g].bad => T.outs[f][g] = <<>>>> >>, 1)
 
 V == IF T.kind = "cli" THEN CliV ELSE ChkV
